@@ -69,4 +69,8 @@ CHECKS["C19"] = dict(level="model_checking",
    technique="TLA+ spec Names (PathOf / LocalName decision table over env + recorded file system) with Fixed, TZif!Decode and Zone!Break as the meaning of the resolved data + TLC trace validation of one child process per environment (fixture tree incl. unreadable file via dropped privileges)",
    text="The decision table TZDIR x TZ x LOCALTIME x 38 name forms is enumerated completely (48 environments quick, 180 thorough); each row's ok / name() / equality with UTC / 8 lookups is decided by TLC from the environment values and the bytes found at the candidate paths.",
    note=_TB + "environment enumeration is exhaustive over the listed values, not over all strings; Android/Fuchsia fallbacks verified absent.")
+CHECKS["C12"] = dict(level="fault_enumeration",
+   technique="fault enumeration derived from the structure of the TLA+ decoder TZif!Decode (every count, version/magic byte, index, offset, 8-byte time edge, section-boundary truncation, footer sentence, full type table) + byte-level mutations; each mutated file loaded and queried under ASan(+container annotations)/UBSan-trap with a per-file alarm; TLC (ZoneTrace) decodes the same bytes and decides load class, ub=0 on every call and spec-equality when WellFormed; determinism by twin load and by identical logs under 4 stack/heap pre-fill patterns",
+   text="What TLA+ decides: what each byte sequence means (must load / must fail / unconstrained, and the answers of a loaded WellFormed zone) and which fault classes exist. What it cannot decide - out-of-bounds access, uninitialised reads, UB inside the C++ - is observed: sanitizers on every execution, differing outcomes across memory pre-fills, an alarm for termination.",
+   note="Trusted base: ASan/UBSan-trap/_GLIBCXX_SANITIZE_VECTOR and the pre-fill comparison as observers (they see only executed inputs); TLC + TZif/Zone; mutgen.py. Files whose header declares more than 64 MiB of data are excluded (the property presumes enough memory).")
 NOT_APPLICABLE = {}
